@@ -1420,11 +1420,11 @@ fn maybe_range(
         }
         // x <= a && x > b
         (Operator::LtEq, Operator::Gt) => {
-            (Bound::Included(right_value), Bound::Excluded(left_value))
+            (Bound::Excluded(right_value), Bound::Included(left_value))
         }
         // x < a && x >= b
         (Operator::Lt, Operator::GtEq) => {
-            (Bound::Excluded(right_value), Bound::Included(left_value))
+            (Bound::Included(right_value), Bound::Excluded(left_value))
         }
         // x < a && x > b
         (Operator::Lt, Operator::Gt) => (Bound::Excluded(right_value), Bound::Excluded(left_value)),
